@@ -186,6 +186,17 @@ HANDLE_FAILURE = {
     'raises': {},        # raises nothing (given the formatter does not)
 }
 
+# second contract on the same function, WITHOUT the assumption that the formatter never raises (a report that cannot be
+# printed: encoding error of the terminal, broken pipe): the failure is then either recorded or the exception goes on --
+# it is never swallowed into a normal return without an entry ("failed iff a bad outcome occurred")
+PRINT_MAY_RAISE = {'kind': 'fresh', 'type': 'Any', 'raises': ['OtherException']}
+HANDLE_FAILURE_UNPRINTABLE = dict(
+    HANDLE_FAILURE, property=['C02'],
+    ensures=["len(errors) == old(len(errors)) + 1"],
+    raises={'OtherException': []},
+    rules={'output.layer_failure': PRINT_MAY_RAISE, 'output.error': PRINT_MAY_RAISE, 'output.*': PRINT_MAY_RAISE,
+           'traceback.print_exc': PRINT_MAY_RAISE, 'f.getvalue': 'fresh:Str'})
+
 # a layer whose tearDown has been attempted is forgotten at once: no second attempt for the same set-up (C01)
 # ... and the registry is exact: a layer is recorded in setup_layers iff its setUp has returned and no tearDown has been
 # attempted since (ghost G.up, maintained by the assumed contracts of the two hooks) -- nothing set up is ever forgotten
@@ -521,6 +532,7 @@ def register(E):
     E.add_contract('runner.order_by_bases@unitfirst', ORDER_UNITFIRST)
     E.add_contract('runner.order_by_bases@complete', ORDER_COMPLETE)
     E.add_contract('runner.handle_layer_failure', HANDLE_FAILURE)
+    E.add_contract('runner.handle_layer_failure@unprintable', HANDLE_FAILURE_UNPRINTABLE)
     E.add_contract('runner.setup_layer', SETUP)
     E.add_contract('runner.tear_down_unneeded', TEARDOWN)
     E.add_contract('runner.run_tests', RUN_TESTS_FN)
